@@ -20,7 +20,9 @@ CLAIMED.update({
                 "every width change and resize (U-cnt, real arrays.h/arrays.cc), and the link/unlink/cache/uncache state machine "
                 "of node_headers changes exactly one count by one, deletes a node exactly when its last reference goes and "
                 "recycles a handle only when it is deleted and uncached (U-hdr, real node_headers.h/.cc; the recycling gate is the "
-                "callee precondition every caller must discharge). Partial: operations' link balance and leak freedom are history "
+                "callee precondition every caller must discharge). The chain builders forest::_makeRedundantsTo / _makeIdentitiesTo hand back "
+                "exactly the one reference they were given (U-chain: one ghost balance = references held minus pointers written into nodes not "
+                "yet stored; every link, unlink, pointer write and store moves it; loop contracts). Partial: operations' link balance and leak freedom are history "
                 "properties outside any function contract and are listed as unverified.",
         "note": COMMON_NOTE + " U-hdr uses the array accessors through abstract contracts (ghost model arrays) that restate the "
                 "U-cnt contracts; that renaming is not machine-checked. forest::deleteNode is an assumed stub there.",
